@@ -44,18 +44,9 @@ Fixpoint qdel (k : str) (q : query) : query :=
   | (k', v) :: q' => if str_eqb k' k then qdel k q' else (k', v) :: qdel k q'
   end.
 
-(* stable insertion by key: the order of url.Values.Encode *)
-Fixpoint qins (k : str) (v : qval) (q : query) : query :=
-  match q with
-  | [] => [(k, v)]
-  | (k', v') :: q' => if str_ltb k k' then (k, v) :: q else (k', v') :: qins k v q'
-  end.
-
-Definition qcanon (q : query) : query :=
-  fold_left (fun acc kv => qins (fst kv) (snd kv) acc) q [].
-
-(* url.Values.Set *)
-Definition qset (k : str) (v : qval) (q : query) : query := qins k v (qdel k q).
+(* url.Values.Set: the only value of k.  (url.Values.Encode orders by key; the order of
+   different keys is not observable by a server, the runner prints queries key-sorted.) *)
+Definition qset (k : str) (v : qval) (q : query) : query := (k, v) :: qdel k q.
 
 Definition qget_s (k : str) (q : query) : str :=
   match qget k q with Some (VS s) => s | _ => [] end.
@@ -148,9 +139,9 @@ Record trace := mkTrace { t_reqs : list url; t_pages : list (list item); t_out :
 
 Definition sends_last (k : kind) : bool := match k with KReferrers => false | _ => true end.
 
-(* the request actually sent for [u] (query shown in Encode order) *)
+(* the request actually sent for [u] *)
 Definition mk_request (c : cfg) (u : url) (last : str) : url :=
-  let q := qcanon (u_query u) in
+  let q := u_query u in
   let q := if (0 <? c_n c)%Z then qset k_n (VN (Z.to_N (c_n c))) q else q in
   let q := if sends_last (c_kind c) && negb (is_empty last) then qset k_last (VS last) q else q in
   mkUrl (u_path u) q.
@@ -262,22 +253,23 @@ Definition page_len (cap : nat) (rq : url) (d : decision) : nat :=
              end in
   Nat.max 1 (Nat.min (d_m d) lim).
 
-Definition reg_filters (rq : url) (d : decision) : bool :=
-  negb (is_empty (qget_s k_at (u_query rq))) &&
+Definition reg_filters (rk : kind) (rq : url) (d : decision) : bool :=
+  negb (sends_last rk) && negb (is_empty (qget_s k_at (u_query rq))) &&
   (d_filter d || is_filter_applied (d_fhdr d) filterTypeArtifactType
               || is_filter_applied (d_fann d) filterTypeArtifactType).
 
 (* page, more?, query of the next link *)
-Definition reg_page (L : list item) (cap : nat) (rq : url) (d : decision)
+Definition reg_page (rk : kind) (L : list item) (cap : nat) (rq : url) (d : decision)
   : list item * bool * query :=
   let rest := after (qget_s k_last (u_query rq)) L in
   let m := page_len cap rq d in
   let page := firstn m rest in
   let more := (m <? length rest)%nat in
-  let items := if reg_filters rq d then filter_referrers page (qget_s k_at (u_query rq)) else page in
+  let items := if reg_filters rk rq d then filter_referrers page (qget_s k_at (u_query rq)) else page in
   (items, more, (k_last, VS (last_name page)) :: d_extra d ++ qdel k_last (u_query rq)).
 
 Section Registry.
+  Variable rk : kind.       (* which endpoint: only the referrers endpoint filters *)
   Variable L : list item.
   Variable cap : nat.
   Variable ds : nat -> decision.
@@ -288,7 +280,7 @@ Section Registry.
 
   Definition reg_serve (i : nat) (rq : url) : response :=
     let d := ds i in
-    let '(items, more, lq) := reg_page L cap rq d in
+    let '(items, more, lq) := reg_page rk L cap rq d in
     mkResp 200 true true (d_doc_len d) (d_doc_len d + d_pad d) items
            (if more then c_lt :: render i rq (mkUrl (u_path rq) lq) ++ c_gt :: trailer i else [])
            (d_fhdr d) (d_fann d).
